@@ -25,6 +25,9 @@ SUBDOCD = ("subdoc", "disk", 12, 120, 40, 80)
 
 REG = ("reg", "mem", 60, 600, 30, 60)
 
+QUERY = ("query", "mem", 25, 250, 30, 60)
+QUERYD = ("query", "disk", 10, 100, 30, 60)
+
 ROW = ["row", "row.v", "row.cas", "row.exp", "row.json", "row.x", "row.tomb", "row.rev"]
 
 PROPS = {
@@ -61,6 +64,10 @@ PROPS = {
                 proj=P(rb=["row", "row.v", "row.exp", "row.tomb", "ge"], ev=["k", "op", "exp"], results=True,
                        ops={"expstate", "fire", "restart", "touch", "gat"}),
                 what="stored expiries, the expiry manager's next-fire time after every operation, sweeps at scripted times, reopen"),
+    "C19": dict(modules=["Rosmar.Properties.C19"], slices=[QUERY, QUERYD],
+                proj=P(rb=["row", "row.v", "row.x"], results=True, ops={"query"}),
+                what="a family of 6 queries (id / body / xattr projections and filters, count) at random positions of multi-collection histories, "
+                     "in-memory (pre-recorded iterator) and on-disk (streaming iterator)"),
     "C18": dict(modules=["Rosmar.Properties.C18"], slices=[SUBDOC, SUBDOCD], proj=V.proj_all,
                 what="WriteSubDoc / SubdocInsert / GetSubDocRaw over object documents, dotted paths of every kind, CAS classes"),
     "C17": dict(modules=["Rosmar.Properties.C17"], slices=[KV, FEEDS, MULTI],
